@@ -135,7 +135,11 @@ class OMapMixin:
             ty = TOMap(k.ty, v.ty)
             r = ty.fresh("dcomp")
             ks = ty.keys(r)
-            self.res.assumed_used.add("dict comprehension over an ordered collection: keys produced are pairwise distinct")
+            # the encoding below is only right when the produced keys are pairwise distinct (no collapsing): an obligation
+            j = z3.Int(f"j!v{self.fresh_id()}")
+            k_j = z3.substitute(k.t, (i, j))
+            self.oblige("dictcomp.distinct", z3.ForAll([i, j], z3.Implies(z3.And(guard, z3.substitute(guard, (i, j)), i < j), k.t != k_j)), e,
+                        "keys produced by a dict comprehension must be pairwise distinct (otherwise entries collapse)")
             self.st.pc.append(ks.length().t == view.n.t)
             self.st.pc.append(z3.ForAll([i], z3.Implies(guard, z3.And(ks[SV(i, TInt)].t == k.t, ty.at(r, k).t == v.t,
                                                                       specfn.list_elems(ks).contains(k).t)), patterns=[ks[SV(i, TInt)].t]))
